@@ -136,3 +136,6 @@ def run(ctx: Ctx) -> None:
         else:
             rep.bad("C08.R4", c.qname, desc, c.module.relpath, [f"written {[show(t) for t in puts]}", f"read {[show(t) for t in heads]}"], "dbfs-redir",
                     what="DBFS redirect record written where fetch_paths does not read")
+    if ctx.report.prop == "C08":
+        from .common import share_rules as _share8
+        _share8(ctx, "C16", "C08.R21", ['C16.R3'], 'the configured data directory is the one the store gets: every link the local store creates for a path lies inside the directory the user named')
